@@ -150,6 +150,7 @@ func runScenario1(name string, cfgSeed uint64, ch func(int, []int) int, grace ti
 		if rng.Chance(40) {
 			cfg = directedSnapCfg(rng)
 		}
+		cfg.failSnap = rng.Chance(30)
 		return runSnap(cfg, ch, grace)
 	case "snapd": // the directed snapshot configurations, by number (coarse depth-first enumeration)
 		return runSnap(directedSnapCfgN(int(cfgSeed%nDirectedSnap), rng), ch, grace)
@@ -185,6 +186,7 @@ func cmdSched(args []string) {
 	sum := schedSummary{Engine: "sched", Exhaustive: map[string]bool{}, ByScenario: map[string]int{}, Known: map[string]string{}}
 	t0 := time.Now()
 	distinct := map[string]bool{}
+	perProp := map[string]int{} // violations kept per property (none crowds another one out)
 	var lockTraces []string
 	var lockOrigin []string
 	record := func(name string, cfgSeed uint64, o *scenOut) {
@@ -205,7 +207,8 @@ func cmdSched(args []string) {
 		}
 		for p, fl := range o.Viol {
 			for _, f := range fl {
-				if len(sum.Violations) < 40 {
+				if perProp[p] < 12 {
+					perProp[p]++
 					sum.Violations = append(sum.Violations, schedViolation{Property: p, What: f, Scenario: name, CfgSeed: cfgSeed, Choices: o.Choices, Desc: o.Desc, Trace: ts})
 				}
 			}
